@@ -19,6 +19,7 @@ PRELUDE = r'''
 int verif_thrown;
 int verif_thrown_other;
 size_t verif_ghost_idx, verif_ghost_idx2, verif_ghost_idx3, verif_ghost_idx4;
+int verif_ghost_int, verif_ghost_int2;
 #define VERIF_THROW(r) verif_thrown = 1; return r
 #define VERIF_THROW_OTHER(r) verif_thrown_other = 1; return r
 #define VERIF_PROPAGATE(r) if (verif_thrown || verif_thrown_other) return r
@@ -69,7 +70,7 @@ def nondet_for(ctype):
 def gen_harness(job, fi, contract):
     if contract.harness is not None:
         return ('#line %d "%s"\n' % (contract.harness[1], contract.path)) + '\n'.join(contract.harness[2])
-    L = ['void h_%s(void) {' % fi.cname, '  VERIF_GHOST_INIT', '  verif_ghost_idx = nondet_size_t(); verif_ghost_idx2 = nondet_size_t(); verif_ghost_idx3 = nondet_size_t(); verif_ghost_idx4 = nondet_size_t();']
+    L = ['void h_%s(void) {' % fi.cname, '  VERIF_GHOST_INIT', '  verif_ghost_idx = nondet_size_t(); verif_ghost_idx2 = nondet_size_t(); verif_ghost_idx3 = nondet_size_t(); verif_ghost_idx4 = nondet_size_t(); verif_ghost_int = nondet_int(); verif_ghost_int2 = nondet_int();']
     args = []
     if fi.is_method:
         L.append('  struct %s nondet_struct_%s(void);' % (fi.cls, fi.cls))
@@ -253,9 +254,9 @@ SHIM_UNWIND = {'__CPROVER_contracts_write_set_check_assignment.0': 40, '__CPROVE
                'verif_strlen.0': 44, 'verif_strchr.0': 44, 'verif_index_of.0': 44, 'vstr_set.0': 16, 'vstr_in_set_.0': 16}
 
 # Math helpers that are inlined (their extracted bodies become part of the verified TU) whenever mentioned
-AUTO_INLINE = {'Math::pi': {}, 'Math::degree': {}, 'Math::NaN': {}, 'Math::infinity': {}, 'Math::sq': {}, 'Math::LatFix': {},
+AUTO_INLINE = {'Math::digits': {}, 'Math::pi': {}, 'Math::degree': {}, 'Math::NaN': {}, 'Math::infinity': {}, 'Math::sq': {}, 'Math::LatFix': {},
                'Math::norm': {}, 'Math::polyval': {}}
-AUTO_ORDER = ['Math::pi', 'Math::degree', 'Math::NaN', 'Math::infinity', 'Math::sq', 'Math::LatFix', 'Math::norm', 'Math::polyval']
+AUTO_ORDER = ['Math::digits', 'Math::pi', 'Math::degree', 'Math::NaN', 'Math::infinity', 'Math::sq', 'Math::LatFix', 'Math::norm', 'Math::polyval']
 
 CHECK_FLAGS = ['--bounds-check', '--pointer-check', '--signed-overflow-check', '--conversion-check',
                '--div-by-zero-check', '--undefined-shift-check']
